@@ -926,7 +926,7 @@ func checkSPSameChecks(r *Report, p *Prog, sc *Scope) {
 			r.Check(B.HasVar(nm) && B.Implies(fail, rej), rule, fmt.Sprintf("%s: failure of %s is an error", p.FnName(dec), shortFn(scf)), p.InstrPos(in), "err != nil => reject", "the decrypt step continues although "+shortFn(scf)+" failed")
 		}
 	}
-	checkXRV(r, sc, rule, []*ssa.Function{dec})
+	checkXRV(r, sc, rule, helperRegion(p, dec, 2)) // the step and the unexported helpers it is split into
 	// same parser, same context: the function that calls the decrypt step forwards to the assertion parser
 	m := &spModel{P: p}
 	one := funcsUnmarshallingInto(p, "Assertion")
